@@ -124,7 +124,7 @@ fn read_sizes() -> impl Strategy<Value = Vec<u32>> {
 }
 
 pub fn strategy(wt: u64, tier: Tier) -> impl Strategy<Value = Case> {
-    let max_n = tier.pick(160u32 << 10, 400u32 << 10);
+    let max_n = tier.pick(160u32 << 10, 256u32 << 10);
     (
         prop_oneof![3 => gens::prog_mix(wt, max_n, 9), 1 => gens::prog_uniform(wt, 70000)],
         read_sizes(),
